@@ -460,8 +460,10 @@ func (g *gen) jsonVal(t *x.Ty, nullOK bool, depth int) *x.J {
 // useVar returns a variable value for a position of type posT, reusing a variable that was
 // created for a position of the same type or defining a new one (with a supplied value and/or a
 // default so that the operation stays valid).
-func (g *gen) useVar(posT *x.Ty) *x.Val {
-	key := posT.SDL()
+func (g *gen) useVar(posT *x.Ty) *x.Val { return g.useVarKey(posT, posT.SDL()) }
+
+// useVarKey: key names the class of positions that may share the variable
+func (g *gen) useVarKey(posT *x.Ty, key string) *x.Val {
 	var cands []*genVar
 	for _, v := range g.vars {
 		if v.posType == key {
@@ -560,11 +562,51 @@ func (g *gen) boolDir() []x.Dir {
 	return []x.Dir{one("include"), one("skip")}
 }
 
-func (g *gen) maybeDirs(num, den int) []x.Dir {
-	if g.r.Chance(num, den) {
-		return g.boolDir()
+// customDir: @tag(name: .., n: ..) with literal and variable arguments; most of its variables are
+// used nowhere else in the operation (class "dir:" is never shared with field arguments)
+func (g *gen) customDir() x.Dir {
+	d := x.Dir{Name: "tag"}
+	one := func(name string, t *x.Ty) {
+		var v *x.Val
+		switch g.r.Pick(5) {
+		case 0, 1:
+			v = g.litNoVar(t, true, 1)
+			g.flag("customdir_literal")
+		case 2, 3:
+			v = g.useVarKey(t, "dir:"+t.SDL())
+			g.flag("customdir_own_variable")
+		default:
+			v = g.useVar(t)
+			g.flag("customdir_shared_variable")
+		}
+		d.Args = append(d.Args, x.Arg{Name: name, V: v})
 	}
-	return nil
+	switch g.r.Pick(4) {
+	case 0:
+		one("n", x.Named("Int"))
+	case 1:
+		one("name", x.Named("String"))
+		one("n", x.Named("Int"))
+	default:
+		one("name", x.Named("String"))
+	}
+	g.flag("customdir")
+	return d
+}
+
+func (g *gen) maybeDirs(num, den int) []x.Dir {
+	var out []x.Dir
+	if g.r.Chance(num, den) {
+		out = g.boolDir()
+	}
+	if g.r.Chance(1, 6) {
+		if g.r.Chance(1, 2) {
+			out = append(out, g.customDir())
+		} else {
+			out = append([]x.Dir{g.customDir()}, out...)
+		}
+	}
+	return out
 }
 
 var typenameFD = x.FD{Name: "__typename", T: x.NN(x.Named("String"))}
